@@ -274,6 +274,11 @@ def templates():
                     continue
                 nm = axis if not isinstance(axis, list) else 'g' + ''.join(map(str, axis[1:]))
                 add('%s-again-%s-%s' % (func, nm, how), 'reduce_', cost=1, shape=[2, 2, 2], func=func, axis=axis, again=how, nan='none')
+    # percentiles of integer data are real numbers (NumPy itself refuses bool data)
+    for dk in 'i':
+        for q in (50, 25.0):
+            add('percentile-%s-data-%s' % (q, dk), 'reduce_', cost=0.5, shape=[2, 2], func='percentile', axis=0, q=q, dkind=dk)
+            add('percentile-%s-data-%s-3d' % (q, dk), 'reduce_', cost=0.5, shape=[2, 2, 2], func='percentile', axis='pos1', q=q, dkind=dk)
     add('percentile-list', 'percentile_list', cost=1, shape=[3, 2], axis=0, qs=[25, 50])
     add('percentile-list-1', 'percentile_list', cost=1, shape=[2, 3], axis=1, qs=[10.0, 50.0, 90.0])
     for dt in ('float32', 'float16'):
